@@ -70,7 +70,7 @@ func c22Index(nodes []*Node, n *Node) int {
 func TestVerif_C22(t *testing.T) {
 	r := verifrt.Start(t, "C22")
 	defer r.Finish()
-	r.Rule("case = (balancer kind, node-list size 1-7, preset of the internal 32-bit counter: 0, mid-range, or within 12 calls of 2^32, number of calls); oracle = every Next() returns without panic a node of the configured list, and for round-robin each pick is the cyclic successor (list order) of the previous successful pick and the first pick of a fresh balancer is the first node; least-load additionally must return a node of minimal weight (documented strategy); concurrent part: Set/SetWeight/Next from several goroutines, every pick must belong to one of the lists ever configured. non-trivial = the counter crossed 2^32 during the case (round-robin), or >1 node with distinct weights (least-load), or >1 node (random); distinct by the full tuple")
+	r.Rule("case = (balancer kind, node-list size 1-7, preset of the internal 32-bit counter: 0, mid-range, or within 12 calls of 2^32, number of calls); oracle = every Next() returns without panic a node of the configured list, and for round-robin each pick is the cyclic successor (list order) of the previous pick (a panicking call still consumes its turn) and the first pick of a fresh balancer is the first node; least-load additionally must return a node of minimal weight (documented strategy); concurrent part: Set/SetWeight/Next from several goroutines, every pick must belong to one of the lists ever configured. non-trivial = the counter crossed 2^32 during the case (round-robin), or >1 node with distinct weights (least-load), or >1 node (random); distinct by the full tuple")
 	r.Assume("RoundRobin.next is the only state deciding the round-robin pick (preset through the unexported field instead of 2^32 real calls; thorough also walks a real wrap)")
 
 	rng := r.Rand(1)
@@ -97,8 +97,9 @@ func TestVerif_C22(t *testing.T) {
 		b := NewRoundRobin()
 		b.Set(nodes...)
 		atomic.StoreUint32(&b.next, preset)
-		prevIdx := -1      // index of the previous successful pick
-		prevCtr := preset  // counter after the previous successful pick
+		prevIdx := -1     // index of the previous successful pick
+		prevCall := -1    // its call number (a panicking call in between still consumes its turn)
+		prevCtr := preset // counter after the previous successful pick
 		wrapped := false
 		var seq []string
 		bad := false
@@ -135,11 +136,12 @@ func TestVerif_C22(t *testing.T) {
 				continue
 			}
 			crossed := after < prevCtr // the counter wrapped between the previous successful pick and this one
-			if prevIdx >= 0 && idx != (prevIdx+1)%size {
+			if prevIdx >= 0 && idx != (prevIdx+(i-prevCall))%size {
 				d := detail()
 				d["previous_pick"] = prevIdx
+				d["calls_since_previous_pick"] = i - prevCall
 				d["pick"] = idx
-				d["expected"] = (prevIdx + 1) % size
+				d["expected"] = (prevIdx + (i - prevCall)) % size
 				if crossed {
 					r.Violation(fmt.Sprintf("roundrobin-wrap-order:nodes=%d", size), d)
 				} else {
@@ -153,7 +155,7 @@ func TestVerif_C22(t *testing.T) {
 				r.Violation("roundrobin-first-pick-not-first-node", d)
 				bad = true
 			}
-			prevIdx, prevCtr = idx, after
+			prevIdx, prevCall, prevCtr = idx, i, after
 		}
 		if wrapped {
 			wraps++
@@ -173,7 +175,7 @@ func TestVerif_C22(t *testing.T) {
 		b.Set(nodes...)
 		prev := -1
 		total := uint64(1)<<32 + 10
-		k := uint64(0)
+		k, prevK := uint64(0), uint64(0)
 		orderReported := false
 		// segment runs plain Next() calls until the end or a panic (tight loop: no per-call defer)
 		segment := func() (panicMsg string) {
@@ -194,7 +196,7 @@ func TestVerif_C22(t *testing.T) {
 				case nodes[2]:
 					idx = 2
 				}
-				if idx < 0 || (prev >= 0 && idx != (prev+1)%3) {
+				if idx < 0 || (prev >= 0 && idx != (prev+int(k-prevK))%3) {
 					if !orderReported {
 						sig := "roundrobin-order"
 						if idx < 0 {
@@ -206,7 +208,7 @@ func TestVerif_C22(t *testing.T) {
 					}
 					orderReported = true
 				}
-				prev = idx
+				prev, prevK = idx, k
 			}
 			return ""
 		}
